@@ -24,7 +24,7 @@ ASSUMPTIONS = [
     "bitwise equality is required for repeats with the same thread setting in one process; <= 1e-12 (double) / 1e-6 (single) of the field "
     "maximum across thread settings and against the fresh-process table; single vs double <= 1e-5 of the field maximum",
 ]
-MIN_NONTRIVIAL = {"quick": 300, "thorough": 3000}
+MIN_NONTRIVIAL = {"quick": 300, "thorough": 600}
 TIMEOUT = {"quick": 1500, "thorough": 3400}
 _table = {}
 
